@@ -65,6 +65,7 @@ STARTSWITH = Function('startswith', Val, Val, BoolSort())
 ENDSWITH = Function('endswith', Val, Val, BoolSort())
 ITEMS_OF = Function('items_of_iterating', Val, Val, BoolSort())   # y is produced by iterating the single value x (a character of the string x)
 CONTAINS = Function('str_contains', Val, Val, BoolSort())      # literal in s  (substring test on a symbolic string)
+CONCAT = Function('str_concat', Val, Val, Val)                 # s + t on two strings (uninterpreted; only its being a string is known)
 
 CLS_LIST = Const('class_list', Cls)
 CLS_TUPLE = Const('class_tuple', Cls)
@@ -157,8 +158,11 @@ class PList:
 
 
 class PSet:
-    def __init__(self, mem):
+    """mem(x): closure; maxlen: z3 Int bounding the number of members (len of the list the set was built from) or None"""
+
+    def __init__(self, mem, maxlen=None):
         self.mem = mem
+        self.maxlen = maxlen
 
 
 class PDict:
@@ -309,8 +313,8 @@ class Maps:
         d = Const(name, Dct)
         return SV('pdict', None, pd=self.base_dict(d), cls=cls, tag=tag if tag is not None else self.cls_tag(cls), own=own, **f)
 
-    def mk_list(self, pl, cls='list', tag=None, own=True):
-        return SV('plist', None, pl=pl, cls=cls, tag=tag if tag is not None else self.cls_tag(cls), own=own)
+    def mk_list(self, pl, cls='list', tag=None, own=True, **f):
+        return SV('plist', None, pl=pl, cls=cls, tag=tag if tag is not None else self.cls_tag(cls), own=own, **{k: v for k, v in f.items() if v is not None})
 
     def mk_dict(self, pd, cls='dict', tag=None, own=True):
         return SV('pdict', None, pd=pd, cls=cls, tag=tag if tag is not None else self.cls_tag(cls), own=own)
@@ -372,6 +376,102 @@ class Maps:
         R.mem = d.dom
         return R
 
+    def set_enum(self, ex, ps):
+        """the order in which a set is iterated: an unspecified list of its members, each exactly once (at most as many as the list it was built from)"""
+        r = fresh_lst('setiter')
+        R = self.base_list(r)
+
+        def g(E, J):
+            out = [NODUP(r)]
+            if ps.maxlen is not None:
+                out.append(LEN(r) <= ps.maxlen)
+            for x in E:
+                out.append(MEM(r, x) == ps.mem(x))
+            return out
+        self.gens.append(g)
+        ex.use('axiom:iterating a set visits every member exactly once, in an unspecified order; len(set(xs)) <= len(xs)')
+        R.mem = ps.mem
+        return R
+
+    # ------------------------------------------------------------------ mapped lists: [f(u) for u in xs] seen as (xs, f)
+    def mapped_view(self, ex, lz):
+        """a comprehension result `[elt for target in src]` (the executor's lazylist, which records src / comp / env) as a pair
+        (base PList, fn: Val term u -> SV of the element built from the item u); None when the list is not of that form"""
+        comp, src = lz.f.get('comp'), lz.f.get('src')
+        if comp is None or src is None or len(comp.generators) != 1:
+            return None
+        g = comp.generators[0]
+        if src.kind == 'plist':
+            base, inner = src.pl, (lambda u, ty=src.f.get('elty', 'any'): V(u, ty))
+        elif src.kind == 'pset' and src.f.get('enum') is not None:
+            base, inner = src.f['enum'], (lambda u: V(u))
+        elif src.kind == 'lazylist':
+            sub = self.mapped_view(ex, src)
+            if sub is None:
+                return None
+            base, inner = sub
+        else:
+            return None
+        env = dict(lz.f.get('env') or {})
+        from .symex import State
+
+        def fn(u):
+            s2 = State(env=dict(env))
+            s2.pending = []; s2.guards = []
+            ex.assign(s2, g.target, inner(u), None)
+            return ex.eval(s2, comp.elt)          # raise conditions of the element were accounted for where the comprehension was evaluated
+        return base, memo1(fn)
+
+    def lazy_as_plist(self, ex, lz):
+        """a comprehension whose element is the iterated item itself has the items of the list it iterates"""
+        mv = self.mapped_view(ex, lz)
+        if mv is None:
+            raise OutOfSubset('comprehension result used as a list value')
+        base, fn = mv
+        u = fresh_val('u')
+        el = fn(u)
+        if el.kind != 'val' or not el.t.eq(u):
+            raise OutOfSubset('comprehension that transforms its items used as a list value')
+        ex.use('axiom:[x for x in xs] (any comprehension whose j-th item is xs[j]) is a new list with the items of xs')
+        return base
+
+    def sorted_pairs(self, ex, st, lz):
+        """sorted([(k(u), u) for u in xs]) with int keys k(u) that differ for different items (obligation at the call): the same pairs in
+        increasing key order.  Tuple comparison looks at the second components only when the first are equal, so the items themselves are never
+        compared with <.  Element view of the result r (its second components): members and duplicate-freeness of xs, len(xs) items,
+        u before v in r <=> k(u) < k(v)."""
+        mv = self.mapped_view(ex, lz)
+        if mv is None:
+            raise OutOfSubset('sorted() of a list that is not a comprehension over a list / set')
+        src, fn = mv
+        u0 = fresh_val('u')
+        el = fn(u0)
+        if el.kind != 'tuple' or len(el.items) != 2 or el.items[0].kind != 'int' or el.items[1].kind != 'val' or not el.items[1].t.eq(u0):
+            raise OutOfSubset('sorted() of a list whose items are not (int key of x, x) pairs')
+        key = memo1(lambda x: fn(x).items[0].t)
+        a, b = fresh_val('a'), fresh_val('b')
+        self.elems += [a, b]
+        ex.oblige(st, 'call.sorted.pre.first_components_of_different_items_differ',
+                  Implies(And(src.mem(a), src.mem(b), a != b), key(a) != key(b)), kind='pre')
+        r = fresh_lst('sorted')
+        R = self.base_list(r)
+
+        def g(E, J):
+            out = [LEN(r) == src.len]
+            if src.nodup is not None:
+                out.append(Implies(src.nodup, NODUP(r)))
+            for x in E:
+                out.append(MEM(r, x) == src.mem(x))
+            for x, y in pairs(E):
+                out.append(Implies(And(MEM(r, x), MEM(r, y)), (FST(r, x) < FST(r, y)) == (key(x) < key(y))))
+            return out
+        self.gens.append(g)
+        ex.use('axiom:sorted() of a list of (int, x) tuples whose first components differ for different x is the same tuples in increasing order of '
+               'the first component (a permutation; the x themselves are never compared with <)')
+        R.mem = src.mem
+        comp, env = lz.f['comp'], lz.f.get('env')
+        return SV('lazylist', None, n=LEN(r), at=(lambda st2, j: fn(AT(r, zi(j)))), src=self.mk_list(R), comp=comp, env=env)
+
     def concat(self, ex, a, b):
         """a + b with its duplicate-freeness: nodup(a+b) <=> nodup(a), nodup(b) and no common member (by witness)"""
         c = PList.concat(a, b)
@@ -427,7 +527,7 @@ class Maps:
         if v.kind == 'tuple':
             return PList.literal([self.to_val(ex, x) for x in v.items])
         if v.kind == 'lazylist':
-            raise OutOfSubset('lazy comprehension used as a list value')
+            return self.lazy_as_plist(ex, v)
         raise OutOfSubset('%s is not a list' % v.kind)
 
     # ------------------------------------------------------------------ mutation sites (frame)
@@ -581,6 +681,10 @@ class Maps:
         return args, kwargs, star, dstar
 
     def call(self, ex, st, e, fname, args, kwargs):
+        if fname in st.env and isinstance(st.env[fname], SV) and st.env[fname].kind == 'val':
+            r = self.call_value(ex, st, e, st.env[fname], args, kwargs)         # f(x) where f is a local holding a callable value
+            if r is not NotImplemented:
+                return r
         if fname in self.contracts:
             return self.contracts[fname](ex, st, args, kwargs)
         if fname == 'type' and len(args) == 1:
@@ -620,7 +724,7 @@ class Maps:
             v = args[0]
             if v.kind == 'plist' or v.kind == 'tuple':
                 pl = self.as_plist(ex, v)
-                return SV('pset', None, ps=PSet(pl.mem))
+                return SV('pset', None, ps=PSet(pl.mem, maxlen=pl.len))
             if v.kind == 'pset':
                 return v
             if v.kind == 'pdict':
@@ -637,10 +741,15 @@ class Maps:
             v = args[0]
             if v.kind in ('plist', 'tuple'):
                 ex.use('axiom:list(xs) is a new list with the items of xs')
-                return self.mk_list(self.as_plist(ex, v))
+                r = self.mk_list(self.as_plist(ex, v), elty=v.f.get('elty') if v.kind == 'plist' else None)
+                if v.kind == 'tuple':
+                    r.f['items_sv'] = list(v.items)          # the items keep their static kinds (a literal string, a mapping, a callable)
+                return r
             if v.kind == 'pdict':
-                return self.mk_list(self.keys_list(ex, v.pd))
+                return self.mk_list(self.keys_list(ex, v.pd), elty=v.f.get('kty'))
             raise OutOfSubset('list(%s)' % v.kind)
+        if fname == 'sorted' and len(args) == 1 and not kwargs and args[0].kind == 'lazylist':
+            return self.sorted_pairs(ex, st, args[0])
         if fname == 'dict' and len(args) == 1 and not kwargs and args[0].kind == 'pdict':
             ex.use('axiom:dict(d) is a new plain dict with the items of d')
             return self.mk_dict(args[0].pd)
@@ -702,18 +811,19 @@ class Maps:
             if unique.kind != 'bool' or not (is_true(simplify(unique.t)) or is_false(simplify(unique.t))):
                 raise OutOfSubset('ulist(unique = <symbolic>)')
             if len(args) == 0:
+                ex.use('callee contract:ulist() is empty (body verified in C16 ulist.__init__.*.no_argument.*)')
                 return self.mk_list(PList.literal([]), cls=base, tag=cls.tag)
             src = self.as_plist(ex, args[0])
             if is_true(simplify(unique.t)):
-                ex.use('assumed contract:ulist(xs, unique = True) holds the items of xs (list.__init__); its precondition "xs has no '
-                       'duplicates" is an obligation at every call site')
+                ex.use('callee contract:ulist(xs, unique = True) holds the items of xs (body verified in C16 ulist.__init__.unique.*); its precondition '
+                       '"xs has no duplicates" is an obligation at every call site')
                 if src.nodup is None:
                     raise OutOfSubset('ulist(xs, unique = True): uniqueness of xs is not expressible')
                 ex.oblige(st, 'call.ulist.unique_fast_path.pre.no_duplicates', src.nodup, kind='pre')
-                return self.mk_list(src, cls=base, tag=cls.tag)
-            ex.use('assumed contract:ulist(xs) = DEDUP(xs): no duplicates, same element set, first-occurrence order (the set / index / sorted '
-                   'pipeline of ulist.__init__ is checked by the bounded stand-in only)')
-            return self.mk_list(self.dedup(ex, src), cls=base, tag=cls.tag)
+                return self.mk_list(src, cls=base, tag=cls.tag, elty=args[0].f.get('elty'))
+            ex.use('callee contract:ulist(xs) = DEDUP(xs): no duplicates, same element set, first-occurrence order, at most len(xs) items '
+                   '(body verified in C16 ulist.__init__.dedup.*: the set / index / sorted pipeline under the axioms of those builtins)')
+            return self.mk_list(self.dedup(ex, src), cls=base, tag=cls.tag, elty=args[0].f.get('elty'))
         if base is not None and self.is_subclass(base, 'dict'):
             return self.construct_dict(ex, st, cls, args, kwargs, star, dstar)
         raise OutOfSubset('constructor of %s' % base)
@@ -722,8 +832,18 @@ class Maps:
         base = cls.f.get('base')
         if star is not None:
             raise OutOfSubset('dict(*xs)')
-        ex.use('assumed contract:%s(d) / %s(**kw) is a new mapping of that class holding exactly the given items in the given order '
-               '(dict.__init__; keyword keys must be strings)' % (base, base))
+        own_ctor, c = False, base
+        while c is not None and c in self.classes:
+            mod_, cdef_, nxt_ = self.classes[c]
+            own_ctor = own_ctor or any(isinstance(n, ast.FunctionDef) and n.name in ('__init__', '__new__') for n in cdef_.body)
+            c = nxt_
+        if own_ctor:
+            ex.use('assumed contract:%s(d) / %s(**kw) is a new mapping of that class holding exactly the given items in the given order '
+                   '(the class defines its own constructor; keyword keys must be strings)' % (base, base))
+        else:
+            ex.use('axiom:%s(d) / %s(**kw) - a dict subclass that defines neither __new__ nor __init__, so this is dict.__new__ + dict.__init__ - is a new mapping of '
+                   'that class holding exactly the given items in the given order (keyword keys must be strings; subclasses that override the constructor are '
+                   'outside the contract)' % (base, base))
         pd = PDict.empty()
         if len(args) == 1 and args[0].kind == 'pdict':
             pd = args[0].pd
@@ -771,7 +891,8 @@ class Maps:
             key = self.resolve(nxt, mname) if nxt is not None else None
             if key is not None and key in ex.inline:
                 return ex.call_inline_expr(st, key, [obj] + list(args), kwargs)
-            return self.builtin_method(ex, st, e, SV('pdict', None, pd=obj.pd, cls='dict', tag=CLS_DICT, own=obj.own), mname, args, kwargs)
+            return self.builtin_method(ex, st, e, SV('pdict', None, pd=obj.pd, cls='dict', tag=CLS_DICT, own=obj.own,
+                                                     **{k: obj.f[k] for k in ('kty', 'vty') if k in obj.f}), mname, args, kwargs)
         return NotImplemented
 
     def builtin_method(self, ex, st, e, recv, mname, args, kwargs):
@@ -785,10 +906,18 @@ class Maps:
                 return self.mk_list(self.concat(ex, recv.pl, o.pl))
             if mname == 'copy' and not args:
                 return self.mk_list(recv.pl)
+            if mname == 'index' and len(args) == 1 and not kwargs:
+                x = self.to_val(ex, args[0])
+                if recv.pl.fst is None:
+                    raise OutOfSubset('index() on a list without element view')
+                ex.use('axiom:xs.index(x) is the position of the first item equal to x; ValueError when there is none')
+                if ex.feasible(st, And(*(st.guards + [Not(recv.pl.mem(x))]))):
+                    ex.raise_if(st, Not(recv.pl.mem(x)), 'ValueError')
+                return I(recv.pl.fst(x))
         if recv.kind == 'pdict':
             pd = recv.pd
             if mname == 'keys' and not args:
-                return self.mk_list(self.keys_list(ex, pd), cls='dict_keys', own=True)
+                return self.mk_list(self.keys_list(ex, pd), cls='dict_keys', own=True, elty=recv.f.get('kty'))
             if mname == 'items' and not args:
                 return SV('items', None, of=recv)
             if mname == 'get' and 1 <= len(args) <= 2:
@@ -820,6 +949,17 @@ class Maps:
                 and isinstance(base.args[1], ast.Name):
             name = base.args[1].id
             obj = st.env.get(name)
+            if obj is not None and obj.kind == 'plist' and mname == '__init__' and not c.keywords:
+                # list.__init__(self, *items): the receiver's items are replaced by the items of the argument (none: emptied)
+                args, _kw, star, _ds = self._star_args(ex, st, c)
+                if star is not None or len(args) > 1:
+                    raise OutOfSubset('list.__init__ with %s' % ('a symbolic *args' if star is not None else '%d arguments' % len(args)))
+                ex.use('axiom:list.__init__(self, xs) replaces the items of self by the items of xs, in order (no argument: by nothing)')
+                self.mutate(ex, st, 'list.__init__', obj)
+                pl = self.as_plist(ex, args[0]) if args else PList.literal([])
+                f = dict(obj.f); f['pl'] = pl; f.pop('items_sv', None)
+                st.env[name] = SV('plist', None, **f)
+                return None
             if obj is None or obj.kind != 'pdict':
                 return NotImplemented
             if mname == '__delitem__' and len(c.args) == 1:
@@ -834,6 +974,11 @@ class Maps:
             obj = st.env[base.id]
             if obj.kind == 'pdict' and mname == 'update' and len(c.args) == 1 and not c.keywords:
                 o = ex.eval(st, c.args[0])
+                if o.kind == 'kwargs':               # the ** mapping of an inlined call made with explicit keywords only: a literal dict
+                    pd0 = PDict.empty()
+                    for k_, v_ in o.f['items'].items():
+                        pd0 = pd0.stored(self.strv(k_), self.to_val(ex, v_))
+                    o = self.mk_dict(pd0)
                 if o.kind != 'pdict':
                     raise OutOfSubset('dict.update(%s)' % o.kind)
                 ex.use('axiom:d.update(o): the items of o overwrite / are appended in the order of o')
@@ -901,6 +1046,9 @@ class Maps:
             return V(recv.pd.get(k))
         if recv.kind == 'plist' and idx.kind == 'int':
             pl = recv.pl
+            svs = recv.f.get('items_sv')
+            if svs is not None and z3.is_int_value(simplify(idx.t)) and -len(svs) <= simplify(idx.t).as_long() < len(svs):
+                return svs[simplify(idx.t).as_long()]
             if pl.at is None:
                 raise OutOfSubset('indexing a list without index view')
             i = idx.t
@@ -1018,6 +1166,11 @@ class Maps:
             if op == 'BitOr':
                 return SV('pset', None, ps=PSet(lambda x: Or(a.ps.mem(x), b.ps.mem(x))))
             return SV('pset', None, ps=PSet(lambda x: And(a.ps.mem(x), Not(b.ps.mem(x)))))
+        if op == 'Add' and all(v.kind == 'str' or (v.kind == 'val' and v.f.get('ty') == 'str') for v in (a, b)) and 'val' in (a.kind, b.kind):
+            ex.use('uninterpreted:s + t on strings is an uninterpreted function of (s, t); the result is a string')
+            r = CONCAT(self.to_val(ex, a), self.to_val(ex, b))
+            ex.fact(IS_STR(r))
+            return V(r, 'str')
         return NotImplemented
 
     def expr(self, ex, st, e):
@@ -1075,6 +1228,11 @@ class Maps:
         if len(e.generators) != 1 or e.generators[0].is_async:
             raise OutOfSubset('dict comprehension with several generators')
         g = e.generators[0]
+        if isinstance(g.iter, ast.Call) and isinstance(g.iter.func, ast.Name) and g.iter.func.id == 'zip' and 'zip' not in st.env \
+                and len(g.iter.args) == 2 and not g.iter.keywords and not g.ifs:
+            r = self.dictcomp_zip(ex, st, e, g)
+            if r is not NotImplemented:
+                return r
         it = ex.eval(st, g.iter)
         env = dict(st.env)
         theory = self
@@ -1157,6 +1315,33 @@ class Maps:
             return self.mk_dict(res)
         raise OutOfSubset('dict comprehension form: %s' % ast.unparse(e)[:80])
 
+    def dictcomp_zip(self, ex, st, e, g):
+        """{k: v for k, v in zip(ks, vs)} over two lists of equal length (obligation): the keys are the members of ks in first-occurrence
+        order, the value under k is vs[j] for the last j with ks[j] == k (the only such j when ks is duplicate free)"""
+        if not (isinstance(g.target, ast.Tuple) and len(g.target.elts) == 2 and all(isinstance(x, ast.Name) for x in g.target.elts)
+                and isinstance(e.key, ast.Name) and isinstance(e.value, ast.Name) and e.key.id == g.target.elts[0].id and e.value.id == g.target.elts[1].id):
+            return NotImplemented
+        a, b = ex.eval(st, g.iter.args[0]), ex.eval(st, g.iter.args[1])
+        if a.kind != 'plist' or b.kind != 'plist' or b.pl.at is None or a.pl.at is None or a.pl.fst is None:
+            return NotImplemented
+        A, Bv = a.pl, b.pl
+        ex.oblige(st, 'zip.equal_lengths', A.len == Bv.len, kind='pre')
+        LAST = Function(fresh_name('last_index'), Val, IntSort())
+
+        def gen(E, J):
+            out = []
+            for x in E:
+                out.append(Implies(A.mem(x), And(A.fst(x) <= LAST(x), LAST(x) < A.len, A.at(LAST(x)) == x)))
+                if A.nodup is not None:
+                    out.append(Implies(And(A.mem(x), A.nodup), LAST(x) == A.fst(x)))
+                for j in J:
+                    out.append(Implies(And(0 <= j, j < A.len, A.at(j) == x), j <= LAST(x)))
+            return out
+        self.gens.append(gen)
+        ex.use('axiom:{k: v for k, v in zip(ks, vs)} for equally long lists has the members of ks as keys (first-occurrence order); the value under k '
+               'is vs[j] for the last j with ks[j] == k')
+        return self.mk_dict(PDict(A.mem, lambda k: Bv.at(LAST(k)), A.fst, A.len))
+
     def rekeyed(self, ex, src, m):
         """{m(k): v for k, v in d.items()}: every m(k) is a key; every key k' is m(k) for the *last* k (in order) with m(k) = k'
         and carries that k's value; distinct new keys are ordered by the first key mapped onto them"""
@@ -1194,6 +1379,18 @@ class Maps:
         if it.kind == 'tuple':
             pl = self.as_plist(ex, it)
             return pl.len, (lambda st2, j: V(pl.at(j)))
+        if it.kind == 'pset':
+            S = it.f.get('enum')
+            if S is None:
+                S = self.set_enum(ex, it.ps)
+                it.f['enum'] = S
+            ps = it.ps
+
+            def at_set(st2, j):
+                j = zi(j)
+                ex.fact(Implies(And(0 <= j, j < S.len), ps.mem(S.at(j))))        # instance: an item met while iterating the set is a member of it
+                return V(S.at(j))
+            return S.len, at_set
         if it.kind == 'items':
             # for k, v in d.items(): the keys in insertion order, each with its value
             pd = it.of.pd
@@ -1288,6 +1485,42 @@ def validate_axioms(maxlen=4, symbols=3):
                     bad.append(('concat.mem', a, b, x))
                 if x in c and fst(c, x) != (fst(a, x) if x in a else len(a) + fst(b, x)):
                     bad.append(('concat.fst', a, b, x))
+    # set iteration, list.index, sorted() of (int key, item) pairs whose keys differ for different items (element view of the second components)
+    class Opaque:                      # items that cannot be ordered: sorted() must never compare two of them with <
+        def __init__(self, v):
+            self.v = v
+
+        def __eq__(self, o):
+            return self.v == o.v
+
+        def __hash__(self):
+            return hash(self.v)
+    for a in lists:
+        it = list(set(a))
+        if len(it) != len(set(it)) or len(it) > len(a) or any((x in it) != (x in a) for x in syms):
+            bad.append(('set.iter', a))
+        for x in set(a):
+            i = a.index(x)
+            if a[i] != x or any(a[j] == x for j in range(i)):
+                bad.append(('index', a, x))
+        for keyf in (lambda v: 10 - 3 * v, lambda v: (v * v + 1) % 5):          # injective on the symbols
+            for src in (a, it):
+                try:
+                    r = [v.v for _, v in sorted([(keyf(u), Opaque(u)) for u in src])]
+                except TypeError:
+                    bad.append(('sorted.compares_items', src)); continue
+                if len(r) != len(src) or any((x in r) != (x in src) for x in syms) or (len(set(r)) == len(r)) != (len(set(src)) == len(src)):
+                    bad.append(('sorted.perm', src))
+                for x in set(r):
+                    for y in set(r):
+                        if (fst(r, x) < fst(r, y)) != (keyf(x) < keyf(y)):
+                            bad.append(('sorted.order', src, x, y))
+    # {k: v for k, v in zip(ks, vs)}: keys in first-occurrence order, the value of the last occurrence
+    for a in lists:
+        vs = ['v%d' % j for j in range(len(a))]
+        r = {k: v for k, v in zip(a, vs)}
+        if list(r) != dedup(a) or any(r[k] != vs[max(j for j in range(len(a)) if a[j] == k)] for k in r):
+            bad.append(('dictcomp.zip', a))
     # dict stamps: relative order of keys under del / store / update equals the order given by the stamp model
     for a in lists:
         if len(set(a)) != len(a):
